@@ -45,7 +45,8 @@ func liveGuards(b *ssa.BasicBlock) []core.Guard {
 			out = append(out, core.Guard{Cond: iff.Cond, Pos: false, If: iff})
 		}
 	}
-	return out
+	// plus what a tested merge implies (an error handed up by an expanded helper; see core.Guards)
+	return core.ThreadGuards(out)
 }
 
 // checkCLIGuards: the conditions under which the CLI does what it does (R17.4/R17.3):
